@@ -287,14 +287,15 @@ def formats(ctx, shard, nshards):
                 # literals in front of or between the specifiers give the scanner its bearings, a
                 # literal behind the last specifier does not (`x%Y%B%d%T` is found, `%Y%B%d%T/` is not)
                 pos, spans = 0, []
-                for tk in toks:
+                vtoks = [tk for tk in toks if tk not in ("%%", "%t", "%n")]     # those print literals
+                for tk in vtoks:
                     j = fmt.find(tk, pos)
                     if j < 0:
                         break
                     spans.append((j, j + len(tk)))
                     pos = j + len(tk)
                 between = (fmt[:spans[0][0]] + "".join(fmt[a:b] for (_, a), (b, _) in zip(spans, spans[1:]))) \
-                    if spans and len(spans) == len(toks) else rest
+                    if spans and len(spans) == len(vtoks) else rest
                 if cons.get("roman"):
                     sc = "scan:roman"
                 elif cons.get("bday"):
